@@ -1,6 +1,7 @@
 package mirror
 
 import (
+	"bytes"
 	"context"
 	"encoding/binary"
 	"fmt"
@@ -525,6 +526,32 @@ func runC11(c runner.Case, env *runner.Env) (res runner.Result) {
 				return
 			}
 			realApp, _ := inst.AppOf(afterDump, false)
+			if kind == "send" || kind == "load-empty" {
+				// One thing the statement does fix, whatever the stamps: a key the application deleted is a change
+				// "captured as a new version"; after a capturing step without remote news the timestamped state
+				// must not still hold it as a live entry (else the next load writes it back into the application's DBI).
+				beforeShadow, _ := inst.LogicalOf(beforeDump, false)
+				for _, ch := range chs {
+					if _, still := m.main[ch.dbi][string(ch.key)]; still || !ch.del {
+						continue
+					}
+					if inWin != nil && ch.dbi == inWin.dbi && (bytes.Equal(ch.key, inWin.key) || bytes.Equal(ch.key, earlyKey)) {
+						continue
+					}
+					v, has := realShadow[ch.dbi][string(ch.key)]
+					if !has {
+						continue
+					}
+					if bv := beforeShadow[ch.dbi][string(ch.key)]; bv.TS >= 1<<62 && !bv.Del {
+						res.Count("deletes_of_future_stamped_keys_checked", 1)
+					}
+					res.Count("future_family_deletes_checked", 1)
+					if !v.Del {
+						res.Violate("local-deletion-not-captured", fmt.Sprintf("after %s (step %d) the key %s[%x], which the application deleted before the step, is still a live entry %v of the timestamped state", kind, step, ch.dbi, ch.key, v), wit())
+						return
+					}
+				}
+			}
 			if kind != "send" {
 				live := map[string]map[string]string{}
 				for d := range realApp {
